@@ -314,7 +314,7 @@ theorem toFail_frame (w : FW) (o : Outcome) (h : OutFrC w o) : PyFail.OutFr w o.
   · trivial
 
 theorem setF_frame (w : FW) (kw : PDict) : PyFail.OutFr w (PyFail.setF w kw) :=
-  PyFail.run_frameX PyFail.noCall PyFail.noCall_frame _ _ _ _ _ _ w
+  PyFail.run_frameX PyFail.propCall PyFail.propCall_frame _ _ _ _ _ _ w
 
 theorem createFWith_frame (set : FW → PDict → PyFail.Outcome) (hset : ∀ w kw, PyFail.OutFr w (set w kw))
     (ctx : Ctx) (w : FW) (id? : Option Nat) (pk : List (Nat × In)) :
